@@ -97,7 +97,7 @@ def run_driver(binary, args, timeout=600, env_extra=None, ok_codes=(0,)):
     except subprocess.TimeoutExpired as ex:
         raise Infra(f"driver timeout after {timeout}s: {args}\n{(ex.stdout or b'')[-2000:]}")
     log(f"driver {args[0]} rc={p.returncode} {time.time()-t:.1f}s")
-    if p.returncode not in ok_codes and CRASH_VERDICT is not None:
+    if p.returncode != 0 and CRASH_VERDICT is not None:
         cr = frp_crash(p.stderr)
         if cr:
             # the driver runs the real frps / frpc in-process: an unrecovered panic raised inside frp's own code
@@ -135,9 +135,13 @@ def frp_crash(stderr):
         fn = f.group(1)
         if "." not in fn.split("/", 1)[0]:
             continue   # standard library frame (runtime, reflect, sync, net/http ...): keep looking for the caller
+        harness_frames = re.search(r"^(main\.|verifharness)", block, re.M)
         if fn.startswith("github.com/fatedier/frp/") and "/verifhook" not in fn:
             side = "frpc" if "/frp/client" in fn else "frps" if "/frp/server" in fn else "frp"
             return (m.group(1)[:160], fn.replace("github.com/fatedier/frp/", ""), side)
+        if fn.startswith("github.com/fatedier/golib/") and not harness_frames:
+            # frp's own stream library (encryption, compression, join) running in a goroutine of the tunnel
+            return (m.group(1)[:160], fn.replace("github.com/fatedier/", ""), "frp")
         return None
     return None
 
